@@ -50,6 +50,15 @@ CHECKS = {
              "to 1 for the first three iterations; events have a single producer; no mutable process-wide state exists; the CLI passes --seed unchanged.",
         design_ref="DESIGN.md section 4, C19",
         note=TB_COMMON + " tables/effects.json is complete for the nondet class; rayon with one element, rand_chacha, f32 arithmetic and stable sorts are deterministic."),
+    "C18": dict(
+        category="proof",
+        technique="static analysis: forward must-be-empty dataflow (move/drop/take aware) over the CFG region of the ucinewgame arm of Client::exec, "
+                  "type-walk carrier discovery, static inventory, argument provenance go -> Search::spawn -> Searcher::analyze",
+        text="Proof that the first search after ucinewgame receives no previous artifact: every loop-carried local of the UCI loop whose type can contain a "
+             "SearchArtifact is empty on all paths from the ucinewgame arm back to the command loop, no static/thread-local can carry search memory, and `go` "
+             "hands exactly carrier.take() through spawn/analyze unchanged. Covers all command histories (running or collected searches) at once.",
+        design_ref="DESIGN.md section 4, C18",
+        note=TB_COMMON + " MIR drop elaboration is trusted. A clear-and-reuse implementation (keeping allocations) would be reported: it needs its own proof."),
 }
 
 NOT_BUILT_REASON = "check not built yet (see DESIGN.md for the plan)"
